@@ -189,9 +189,10 @@ def dones {R : Type} : List (Prog R) → Option (List R)
   | .done r :: ps => (dones ps).map (r :: ·)
   | _ :: _ => none
 
-def conts {R : Type} : List (Prog R) → Option (List (Req × (Resp → Prog R)))
+/-- the requests of members that all sit at a collective. -/
+def reqsOf {R : Type} : List (Prog R) → Option (List Req)
   | [] => some []
-  | .coll q k :: ps => (conts ps).map ((q, k) :: ·)
+  | .coll q _ :: ps => (reqsOf ps).map (q :: ·)
   | _ :: _ => none
 
 def firstFail {R : Type} : List (Prog R) → Option Err
@@ -204,9 +205,15 @@ def reqOf {R : Type} : Prog R → Option Req
   | .coll q _ => some q
   | _ => none
 
-def resume {R : Type} : List (Req × (Resp → Prog R)) → List Resp → List (Prog R)
-  | (_, k) :: qs, r :: rs => k r :: resume qs rs
-  | _, _ => []
+/-- hand a member the transport's answer. -/
+def step {R : Type} : Prog R → Resp → Prog R
+  | .coll _ k, r => k r
+  | p, _ => p
+
+def stepAll {R : Type} : List (Prog R) → List Resp → List (Prog R)
+  | p :: ps, r :: rs => step p r :: stepAll ps rs
+  | _ :: ps, [] => .fail .other :: stepAll ps []      -- no answer for a member: protocol error
+  | [], _ => []
 
 /-- why a world in which not all members are at a collective (resp. not all done) is stuck. -/
 def stuck {R : Type} (ps : List (Prog R)) : Mismatch :=
@@ -229,14 +236,14 @@ def runWorld {R : Type} (group : List Nat) : Prog R → List (Prog R) → Run R
     | none => ⟨[none :: ps.map reqOf], .error (stuck ps)⟩
   | .fail e, ps => ⟨[none :: ps.map reqOf], .error (.crashed e)⟩
   | .coll q k, ps =>
-    match conts ps with
+    match reqsOf ps with
     | none => ⟨[some q :: ps.map reqOf], .error (stuck ps)⟩
     | some qs =>
-      match exchange group (q :: qs.map (·.1)) with
+      match exchange group (q :: qs) with
       | .error e => ⟨[some q :: ps.map reqOf], .error e⟩
       | .ok [] => ⟨[some q :: ps.map reqOf], .error .arity⟩
       | .ok (r :: rs) =>
-        let rest := runWorld group (k r) (resume qs rs)
+        let rest := runWorld group (k r) (stepAll ps rs)
         ⟨(some q :: ps.map reqOf) :: rest.rounds, rest.out⟩
 
 def runWorldL {R : Type} (group : List Nat) : List (Prog R) → Run R
